@@ -153,6 +153,7 @@ inductive Mut
   | break_                      -- `break`
   | continue_                   -- `continue`
   | return_ (n : Nat)           -- `return n`
+  | execCmd (k : Str)           -- `exec <external command>`; `k` names the form, see `execStatus`
   | false_ | true_
   | echo (w : Str)              -- `echo w`
   deriving DecidableEq, Repr
@@ -186,6 +187,23 @@ would act on (`ExecutionResult::next_control_flow`) -/
 inductive Flow
   | normal | exit | brk | cont | ret
   deriving DecidableEq, Repr
+
+/-- `exec <external command>`, by form: `true` = `exec /bin/true`, `echo` = `exec /bin/echo x`,
+`false` = `exec /bin/false`, `nosuch` = `exec nosuchcmd_c12`, `arg0` = `exec -a name /bin/true`,
+`cmd` = `command exec /bin/echo x`, `blt` = `builtin exec /bin/echo x`.
+Status it leaves when a *subshell* runs it: there (`Shell::is_subshell()`, clone depth > 0)
+`brush-builtins/src/exec.rs` does not call execve — that would replace the parent too — but runs the
+command through `command` and comes back (options such as `-a` are "not yet implemented": 99). -/
+def execStatus (k : Str) : Nat :=
+  if k = "false".toList then 1 else if k = "nosuch".toList then 127 else if k = "arg0".toList then 99 else 0
+
+def execOut (k : Str) : List Str :=
+  if k = "echo".toList ∨ k = "cmd".toList ∨ k = "blt".toList then [['x']] else []
+
+/-- at clone depth 0 (the parent itself) `exec` of a command that exists really replaces the process -/
+def execReplaces : Mut → Bool
+  | .execCmd k => k != "nosuch".toList
+  | _ => false
 
 /-- result of one command on a `Shell` value -/
 structure Step where
@@ -254,6 +272,8 @@ def stepShell (root : List Str) (m : Mut) (s : ShellPart) : Step :=
   | .continue_ => { sh := s, status := 0, exited := true, flow := .cont }
   -- (inside a function; outside one `return` is an error, see `runStep`)
   | .return_ n => { sh := s, status := n % 256, exited := true, flow := .ret }
+  -- as run by a subshell (a clone): the command runs, the list goes on (bash: the subshell ends here)
+  | .execCmd k => { sh := s, status := execStatus k, out := execOut k }
   | .false_ => { sh := s, status := 1 }
   | .true_ => { sh := s, status := 0 }
   | .echo w => { sh := s, status := 0, out := [w] }
@@ -410,7 +430,8 @@ structure After where
   status : Nat
   out : List Str
   /-- the rest of the parent's command line does not run.  No subshell context causes this; it
-      happens only when the parent's *own* last pipeline stage (under `lastpipe`) is an `exit`. -/
+      happens only when the parent's *own* last pipeline stage (under `lastpipe`) is an `exit` or an
+      `exec <command>`. -/
   aborted : Bool := false
   deriving DecidableEq
 
@@ -482,9 +503,10 @@ def execWith (sh fr : Comp → Bool) (root : List Str) (c : Ctx) (ms : List Mut)
     | some (init, l) =>
       let r := runStages sh fr root init p0 w      -- the non-final stages, each on its own clone
       if lastpipeOn p0 || init.isEmpty then   -- (a pipeline of one command always runs in the current shell)
-        -- the last stage `{ l; }` runs on the parent itself; an `exit` there leaves the parent
+        -- the last stage `{ l; }` runs on the parent itself; an `exit` there leaves the parent, and an
+        -- `exec cmd` there replaces the parent's process (clone depth 0: a real execve)
         let st := stepShell root l r.1
-        { shell := st.sh, world := stepWorld l r.2, status := st.status, out := st.out, aborted := st.exited }
+        { shell := st.sh, world := stepWorld l r.2, status := st.status, out := st.out, aborted := st.exited || execReplaces l }
       else
         let rr := runMuts root [l] { sh := cloneWith fr r.1, world := r.2 }
         { shell := leakWith sh rr.sh r.1, world := rr.world, status := rr.status, out := rr.out }
